@@ -80,12 +80,26 @@ where
             type_id
         ))?;
 
+        #[cfg(scale_typegen_verif)]
+        crate::verif_hooks::emit(format!(
+            r#"{{"ev":"enter","id":{type_id},"cache":"{}"}}"#,
+            match self.cache.borrow().get(&type_id) {
+                None => "miss",
+                Some(Cached::Recursive) => "recursive",
+                Some(Cached::Computed(_)) => "computed",
+            }
+        ));
         if let Some(cache_value) = self.cache.borrow().get(&type_id) {
             let result_or_continue = match cache_value {
                 Cached::Recursive => (self.recurse_policy)(type_id, ty, self),
                 Cached::Computed(repr) => (self.cache_hit_policy)(type_id, ty, repr, self),
             };
             if let Some(result) = result_or_continue {
+                #[cfg(scale_typegen_verif)]
+                crate::verif_hooks::emit(format!(
+                    r#"{{"ev":"short","id":{type_id},"ok":{}}}"#,
+                    result.is_ok()
+                ));
                 return result;
             }
         };
@@ -94,6 +108,8 @@ where
         self.cache
             .borrow_mut()
             .insert(type_id, Cached::Computed(r.clone()));
+        #[cfg(scale_typegen_verif)]
+        crate::verif_hooks::emit(format!(r#"{{"ev":"exit","id":{type_id}}}"#));
         Ok(r)
     }
 }
